@@ -19,7 +19,7 @@ NPROC = int(os.environ.get("VERIF_NPROC", "16"))
 
 class Case:
     def __init__(self, id, fn, params=None, timeout=30, hard=None, max_paths=64, max_depth=64,
-                 expect_paths=None, pin_tries=4, replay=True, sentinel=True, kind="identity"):
+                 expect_paths=None, pin_tries=4, replay=True, sentinel=True, kind="identity", patch=True, crosscheck=True):
         self.id, self.fn, self.params = id, fn, params or {}
         self.timeout = timeout            # per obligation, seconds
         self.hard = hard or max(120, timeout * 12)     # wall clock budget of the whole case
@@ -28,6 +28,8 @@ class Case:
         self.replay = replay
         self.sentinel = sentinel
         self.kind = kind
+        self.patch = patch            # False: the code under test runs unshimmed (concrete floats); only symbolic booleans fork
+        self.crosscheck = crosscheck
 
 
 # ----------------------------------------------------------------------------- model helpers
@@ -202,8 +204,9 @@ def _sym_worker(case, conn, seed, trace_fns):
     try:
         from . import core, shims
         from .harness import SymH, Skip
-        shims.patch_cardillo()
-        _post_patch()
+        if case.patch:
+            shims.patch_cardillo()
+            _post_patch()
         rng = random.Random(int(hashlib.sha1(f'{seed}:{case.id}'.encode()).hexdigest()[:8], 16))
         core.CTX.reset_all()
         deadline = time.time() + case.hard * 0.9
